@@ -77,7 +77,8 @@ def design_jobs(quick):
     'variant' must be rejected."""
     J = []
     base2 = dict(threads=2, libs="AB")
-    J.append(("safe(2thr,AB,self=A,failc=B)", "ok", dict(base2, self_="A", failc="B"), {}))
+    if not quick:     # quick: subsumed by the liveness run below (same invariants and refinement under Spec)
+        J.append(("safe(2thr,AB,self=A,failc=B)", "ok", dict(base2, self_="A", failc="B"), {}))
     J.append(("safe(3thr,A,self=A)", "ok", dict(threads=3, libs="A", self_="A"), {}))
     J.append(("safe(2thr,AB,self=B,failm=A,pre)", "ok", dict(base2, self_="B", failm="A", pre=True), {}))
     if not quick:
@@ -126,7 +127,7 @@ def run_design(ctx):
                 ckw2["invs"] = ["NoABBA"]
             big = ckw2["threads"] >= 3 and len(ckw2["libs"]) >= 2
             return core.tlc("Embedding", cfg_text=cfg(**ckw2), workers=8 if big else 2, coverage=(kind == "ok" and not big),
-                            timeout=840, **tkw)
+                            timeout=3000, **tkw)
         return name, th
     res = par([mk(*j) for j in jobs], 3 if not quick else 8)
     labels_seen = {}
@@ -171,7 +172,7 @@ def simulate(ctx, sc, num, seed, workers):
     text = cfg(sc["threads"], sc["libs"], sc.get("maxcalls", 1), sc.get("self_", ""), sc.get("cross", ""),
                sc.get("failc", ""), sc.get("failm", ""), sc.get("pre", False), spec="SimSpec",
                invs=["PrintFinal"], props=(), deadlock=False)
-    r = core.tlc("Embedding_Sim", cfg_text=text, workers=workers, simulate="num=%d" % num, depth=600, seed=seed, timeout=600)
+    r = core.tlc("Embedding_Sim", cfg_text=text, workers=workers, simulate="num=%d" % num, depth=600, seed=seed, timeout=3000)
     behs = []
     for tup in core.tla_tuples(r.out, "BEH"):
         s = tup[0].strip()
@@ -202,7 +203,7 @@ def graph_behaviours(ctx, sc, max_walks):
     dump = os.path.join(ctx.tmp, "graph_%dthr_%s" % (sc["threads"], sc["libs"]))
     text = cfg(sc["threads"], sc["libs"], sc.get("maxcalls", 1), sc.get("self_", ""), sc.get("cross", ""),
                sc.get("failc", ""), sc.get("failm", ""), sc.get("pre", False), invs=[], props=(), deadlock=False)
-    r = core.tlc("Embedding", cfg_text=text, workers=2, dump=dump, timeout=600)
+    r = core.tlc("Embedding", cfg_text=text, workers=2, dump=dump, timeout=3000)
     g = tlaval.load_dot(dump + ".dot", parse=False)
     out = {n: [e for e in g.out.get(n, []) if e[0] != "Terminating"] for n in g.states}
     uncovered = {(n, i) for n, es in out.items() for i in range(len(es))}
